@@ -212,7 +212,12 @@ impl Prop for C11 {
                                 return valve::query(&addr(), engine, Some(gs), None);
                             }
                             let game = gamedig::Game { name: "C11", default_port: 27015, protocol: gamedig::protocols::types::Protocol::Valve(engine), request_settings: Default::default() };
-                            let extra = gamedig::protocols::types::ExtraRequestSettings { hostname: None, protocol_version: None, gather_players: Some(players), gather_rules: Some(rules), check_app_id: if path == 2 { None } else { Some(check) } };
+                            // (path 1 builds the settings with the builder methods, path 2 as a struct literal)
+                            let extra = if path == 1 {
+                                gamedig::protocols::types::ExtraRequestSettings::default().set_gather_players(players).set_gather_rules(rules).set_check_app_id(check)
+                            } else {
+                                gamedig::protocols::types::ExtraRequestSettings { hostname: None, protocol_version: None, gather_players: Some(players), gather_rules: Some(rules), check_app_id: None }
+                            };
                             let a = addr();
                             let r = gamedig::query_with_timeout_and_extra_settings(&game, &a.ip(), Some(a.port()), None, Some(extra))?;
                             match r.as_original() {
@@ -323,7 +328,11 @@ impl Prop for C11 {
                                 return unreal2::query(&addr(), &gs, None);
                             }
                             let game = gamedig::Game { name: "C11", default_port: 7777, protocol: gamedig::protocols::types::Protocol::Unreal2, request_settings: Default::default() };
-                            let extra = gamedig::protocols::types::ExtraRequestSettings { hostname: None, protocol_version: None, gather_players: if path == 2 { None } else { Some(players) }, gather_rules: if path == 2 { None } else { Some(rules) }, check_app_id: None };
+                            let extra = if path == 1 {
+                                gamedig::protocols::types::ExtraRequestSettings::default().set_gather_rules(rules).set_gather_players(players)
+                            } else {
+                                gamedig::protocols::types::ExtraRequestSettings { hostname: None, protocol_version: None, gather_players: None, gather_rules: None, check_app_id: None }
+                            };
                             let a = addr();
                             let r = gamedig::query_with_timeout_and_extra_settings(&game, &a.ip(), Some(a.port()), None, Some(extra))?;
                             match r.as_original() {
